@@ -38,6 +38,10 @@ type Inst struct {
 	// fallback.WithResult/WithError/WithFunc, cachepolicy.With, bulkhead.With, timeout.With, hedgepolicy.WithDelay,
 	// ratelimiter.SmoothWithMaxRate/Bursty); the configuration is the one that constructor documents, no listeners
 	Plain bool `json:"plain,omitempty"`
+	// Reuse: after Build the builder is used again (retry, fallback, timeout, hedge: the builders whose Build copies the
+	// configuration): a different set of listeners is registered on it and a second policy is built and thrown away. The
+	// first policy keeps reporting to the listeners it was built with; the later ones must stay silent.
+	Reuse bool `json:"reuse,omitempty"`
 
 	// Mute: listeners of this instance that are NOT registered (by name, e.g. "OnStateChanged", "OnOpen", "OnRetry")
 	Mute []string `json:"mute,omitempty"`
@@ -70,6 +74,9 @@ func (in Inst) String() string {
 		s += "[convenience constructor]"
 	} else if len(in.Mute) > 0 {
 		s += fmt.Sprintf("[without listeners %v]", in.Mute)
+	}
+	if in.Reuse {
+		s += "[builder reused afterwards]"
 	}
 	return s
 }
